@@ -4,7 +4,9 @@ import (
 	"fmt"
 	"go/constant"
 	"go/token"
+	"go/types"
 	"os"
+	"strings"
 
 	"golang.org/x/tools/go/ssa"
 )
@@ -299,4 +301,56 @@ func allOriginsAfterN(f *ssa.Function, from ssa.Instruction, v ssa.Value, depth 
 		return allOrigins(v, preds...)
 	}
 	return true, nil
+}
+
+// ctxKeyReadBy returns the context key (value and type) a reader function looks up with ctx.Value(<const>): the key
+// is identified by who reads it, not by what the constant is called.
+func ctxKeyReadBy(f *ssa.Function) (int64, string) {
+	for _, ci := range callsIn(f, "(context.Context).Value") {
+		a := ci.Common().Args
+		if len(a) != 1 {
+			continue
+		}
+		v := a[0]
+		if mi, ok := v.(*ssa.MakeInterface); ok {
+			v = mi.X
+		}
+		if k, ok := v.(*ssa.Const); ok {
+			if n, isInt := constInt(k); isInt {
+				return n, typeStr(k.Type())
+			}
+		}
+	}
+	fatalf("anchor: %s does not read a constant context key", f)
+	return 0, ""
+}
+
+// literalsOrBoundMethods lists the function literals of outer matching match, plus the methods outer turns into
+// function values (`x.method` as a func: a closure over the bound-method wrapper) that match.
+func literalsOrBoundMethods(outer *ssa.Function, match func(*types.Signature) bool) []*ssa.Function {
+	var out []*ssa.Function
+	for _, a := range outer.AnonFuncs {
+		if match(a.Signature) {
+			out = append(out, a)
+		}
+	}
+	for _, in := range instrs(outer) {
+		mc, ok := in.(*ssa.MakeClosure)
+		if !ok {
+			continue
+		}
+		w, ok := mc.Fn.(*ssa.Function)
+		if !ok || !strings.HasSuffix(w.Name(), "$bound") {
+			continue
+		}
+		if obj, isFn := w.Object().(*types.Func); isFn {
+			if m := curProg.SSA.FuncValue(obj); m != nil && m.Blocks != nil {
+				// compare without the receiver
+				if match(w.Signature) {
+					out = append(out, m)
+				}
+			}
+		}
+	}
+	return out
 }
